@@ -162,33 +162,44 @@ func hasMinMaxAgg(expr string) bool {
 	return found
 }
 
-// sentinelInsteadOf: same label sets and timestamps; values agree except where the server answers +-MaxFloat64 and
-// upstream NaN or an infinity (at least once)
+// sentinelInsteadOf: point by point the two answers agree, except that where the server answers +-MaxFloat64 upstream
+// has NaN, an infinity, or (a comparison filter dropped the NaN) no point at all - at least once
 func sentinelInsteadOf(up, sv result) bool {
-	if up.Kind != sv.Kind || sv.Err != "" || len(up.Series) != len(sv.Series) {
+	if up.Kind != sv.Kind || sv.Err != "" {
 		return false
 	}
-	um := map[string]rseries{}
+	type key struct {
+		ls string
+		t  int64
+	}
+	um := map[key]float64{}
 	for _, s := range up.Series {
-		um[labelKey(s.Labels)] = s
+		for _, p := range s.Pts {
+			um[key{labelKey(s.Labels), p.T}] = p.V
+		}
 	}
 	hit := false
+	seen := map[key]bool{}
 	for _, s := range sv.Series {
-		u, ok := um[labelKey(s.Labels)]
-		if !ok || len(u.Pts) != len(s.Pts) {
-			return false
+		for _, p := range s.Pts {
+			k := key{labelKey(s.Labels), p.T}
+			if seen[k] {
+				return false
+			}
+			seen[k] = true
+			u, ok := um[k]
+			switch {
+			case ok && feq(p.V, u):
+			case math.Abs(p.V) == math.MaxFloat64 && (!ok || math.IsNaN(u) || math.IsInf(u, 0)):
+				hit = true
+			default:
+				return false
+			}
 		}
-		for i, p := range s.Pts {
-			if p.T != u.Pts[i].T {
-				return false
-			}
-			if feq(p.V, u.Pts[i].V) {
-				continue
-			}
-			if math.Abs(p.V) != math.MaxFloat64 || !(math.IsNaN(u.Pts[i].V) || math.IsInf(u.Pts[i].V, 0)) {
-				return false
-			}
-			hit = true
+	}
+	for k := range um {
+		if !seen[k] {
+			return false
 		}
 	}
 	return hit
